@@ -3,20 +3,22 @@
 # applies the change to /repo, runs the property's check, and always restores /repo.
 set -u
 P="$1"; PROP="$2"; TIER="${3:-quick}"
-cd /repo || exit 2
-if [ -n "$(git status --porcelain)" ]; then echo "/repo not clean"; exit 2; fi
+# TP_REPO: the repository checkout to patch (default /repo; a scratch clone when /repo is in use); PV_DIR: the /verif tree to run the check from
+REPO="${TP_REPO:-/repo}"; VDIR="${PV_DIR:-/verif}"
+cd "$REPO" || exit 2
+if [ -n "$(git status --porcelain)" ]; then echo "$REPO not clean"; exit 2; fi
 case "$P" in
   revert:*) C="${P#revert:}"; git diff "$C~1" "$C" | git apply -R || { echo "cannot revert $C"; exit 2; } ;;
   *) git apply "$P" || { echo "patch does not apply"; exit 2; } ;;
 esac
-cd /verif
-python3 pv.py "$PROP" --tier "$TIER" > /tmp/trypatch.out 2> /tmp/trypatch.err
+cd "$VDIR"
+VERIF_REPO="$REPO" python3 pv.py "$PROP" --tier "$TIER" > /tmp/trypatch.out 2> /tmp/trypatch.err
 RC=$?
-git -C /repo checkout -- . ; git -C /repo clean -fdq
+git -C "$REPO" checkout -- . ; git -C "$REPO" clean -fdq
 echo "exit=$RC"; grep -c '^VIOLATION' /tmp/trypatch.out | sed 's/^/violation_lines=/'
 grep '^VIOLATION\|^KNOWN' /tmp/trypatch.out | head -3
 grep -A1 '^VIOLATION' /tmp/trypatch.err | head -2; grep '^  C[0-9]' /tmp/trypatch.err | head -4 | cut -c1-300
 tail -1 /tmp/trypatch.err | cut -c1-300
 # restore evidence of the unchanged tree afterwards (evidence files are rewritten by every run)
-git -C /verif checkout -- evidence 2>/dev/null
+git -C "$VDIR" checkout -- evidence 2>/dev/null
 exit 0
